@@ -19,8 +19,9 @@ above).
 
 Descendants: a rebind through an ancestor reaches `_set_item_of_current_tree`,
 whose check is on the *target's* container; that container is the protected
-node or one of its descendants (A-DEEPSEAL: seal() is deep -- proved below for
-the one-level step of List.seal / Dict.seal / Object.seal).
+node or one of its descendants (A-DEEPSEAL: seal() is deep -- the one-level
+step is proved at the end of this file for Dict.sym_seal / List.sym_seal /
+Object.sym_seal; `seal` is their alias).
 """
 import z3
 import pyglove as pg
@@ -383,3 +384,228 @@ _dom('DictIOr', pg.Dict, '__ior__', lambda b: dict(other={'k': b.any('v')}))
 _dom('ListRemove', pg.List, 'remove', _any('value'))
 _dom('ListRebind', pg.List, 'rebind', lambda b: dict(path_value_pairs={0: b.any('v')}))
 _dom('DictRebind', pg.Dict, 'rebind', lambda b: dict(path_value_pairs={'k': b.any('v')}))
+
+
+# ---------------------------------------------------------------------------
+# A-DEEPSEAL, one-level step: sealing a container seals every symbolic child
+# (by their own `seal`, hence recursively: A-INDUCTION) and sets the
+# container's own flag -- on every returning path, for containers with any
+# number of children.  (The DOM contracts above rely on this: a node reached
+# from a sealed receiver is sealed.)
+
+from pyvc import loops as _loops, absobj as _absobj   # noqa: E402  pylint: disable=wrong-import-position
+
+CHILD_IS_SYMBOLIC = z3.Function('c08_child_is_symbolic', z3.IntSort(), z3.BoolSort())
+
+
+class SealChild:
+  """Marker: an abstract child value of the container being sealed."""
+
+
+class _DeepSeal(Contract):
+  prop = 'C08'
+  raises = {}
+  loop_func = None
+  receiver_cls = None
+  inline = (f'{SB}:Symbolic.sym_seal', f'{SB}:Symbolic._set_raw_attr', f'{SB}:Symbolic.seal')
+
+  def inputs(self, b):
+    self._children = _absobj.ref_seq(b, 'children', SealChild)
+    s = SObj(self.receiver_cls, {'_sealed': b.bool('was_sealed')}, name='self')
+    return dict(self=s, is_seal=b.bool('is_seal')), {}
+
+  def setup_policy(self, policy):
+    import builtins
+    me = self
+
+    def isinstance_h(interp, args, kwargs, frame):
+      from pyvc import axioms
+      v, t = interp.resolve(args[0]), args[1]
+      if isinstance(v, SObj) and v.cls is SealChild and t is base.Symbolic:
+        return SBool(CHILD_IS_SYMBOLIC(v.ghost['id']))
+      return axioms._b_isinstance(interp, args, kwargs, frame)
+    policy.handlers[id(builtins.isinstance)] = isinstance_h
+
+    def getattr_h(interp, obj, name, frame):
+      if isinstance(obj, SObj) and obj.cls is SealChild and name in ('seal', 'sym_seal'):
+        def seal(ip, a, k, o=obj):
+          ip.path.event('child-seal', name, (o, ip.resolve(a[0]) if a else True))
+          return o
+        return I.NativeFn(seal)
+      return NotImplemented
+    policy.handlers[('getattr', SObj)] = getattr_h
+
+    def raw_set(interp, args, kwargs, frame):
+      obj, name, v = interp.resolve(args[0]), args[1], args[2]
+      interp.path.event('raw-set', name, (obj, v))
+      obj.fields[name] = v
+      return None
+    policy.handlers[('cmethod', object, '__setattr__')] = raw_set
+    policy.handlers[('identical',)] = _absobj.identical_handler
+    for key in self.children_sources:
+      policy.contracts[key] = lambda interp, frame, args, kwargs: me._children
+
+    def body_check(interp, frame, events):
+      """The arbitrary iteration: a symbolic child is sealed with the very
+      flag that was asked for; a leaf is left alone."""
+      child = interp.resolve(frame.locals['__pyvc_item__'])
+      cid = _absobj.ref_id(child)
+      sealed = [e for e in events if e.kind == 'child-seal']
+      flag = frame.locals['is_seal']
+      if sealed:
+        ok = (len(sealed) == 1 and _absobj.ref_id(sealed[0].data[0]) is not None)
+        same = interp.truth_z(interp.identical(sealed[0].data[1], flag))
+        same = z3.BoolVal(same) if isinstance(same, bool) else same
+        return z3.And(z3.BoolVal(bool(ok)), _absobj.ref_id(sealed[0].data[0]) == cid, CHILD_IS_SYMBOLIC(cid), same)
+      return z3.Not(CHILD_IS_SYMBOLIC(cid))
+    _loops.install(policy, self.loop_func, 0, self.inv_trivial, havoc=self.havoc_locals(),
+                   name='children-loop', body_check=body_check)
+
+  def havoc_locals(self):
+    return {}
+
+  def inv_trivial(self, i):
+    return True
+
+  def trace_children_loop_runs_and_own_flag_is_set(self, events, outcome, interp, env):
+    """No shortcut: on every returning path the loop over the children is
+    executed and the container's own flag is written with the requested value."""
+    if outcome[0] != 'return':
+      return False
+    s = interp.resolve(env['self'])
+    loops_ = [e for e in events if e.kind == 'loop']
+    sets = [e for e in events if e.kind == 'raw-set' and e.what == '_sealed' and e.data[0] is s]
+    if len(loops_) != 1 or len(sets) != 1:
+      return False
+    r = interp.identical(sets[0].data[1], env['is_seal'])
+    return interp.truth_z(r)
+
+  def ensures_returns_self(self, self_, result):
+    return result is self_
+
+  # native replay over the small scope of shapes / flag histories
+  def _build(self):
+    raise NotImplementedError
+
+  def replay(self, obligation, m):
+    bad = []
+    for first in (None, True, False):
+      for second in (True, False):
+        root, child = self._build()
+        with pg.as_sealed(False):
+          if first is not None:
+            self._own_seal(root, first)       # bring the container's own flag into a state
+            child.sym_seal(not second) if hasattr(child, 'sym_seal') else None
+        root.seal(second) if m.get('alias', True) else root.sym_seal(second)
+        if child.is_sealed != second or root.is_sealed != second:
+          bad.append(f'own flag first set to {first}, child set to {not second}, then seal({second}): '
+                     f'root.is_sealed={root.is_sealed}, child.is_sealed={child.is_sealed}')
+    return dict(outcome='reproduced' if bad else 'not-reproduced', detail='; '.join(bad[:3]) or 'descendants follow')
+
+  def _own_seal(self, root, flag):
+    base.Symbolic.sym_seal(root, flag)
+
+  def small_models(self):
+    from pyvc.contracts import Model
+    yield Model(dict(alias=True), {})
+    yield Model(dict(alias=False), {})
+
+
+@register
+class DictDeepSeal(_DeepSeal):
+  target = f'{SD}:Dict.sym_seal'
+  loop_func = 'Dict.sym_seal'
+  receiver_cls = pg.Dict
+  children_sources = (f'{SD}:Dict.sym_values',)
+
+  def havoc_locals(self):
+    return {'v': lambda b, n: SAny(n)}
+
+  def _build(self):
+    root = pg.Dict(a=pg.Dict(x=1), b=2)
+    return root, root.a
+
+
+@register
+class ListDeepSeal(_DeepSeal):
+  target = f'{SL}:List.sym_seal'
+  loop_func = 'List.sym_seal'
+  receiver_cls = pg.List
+  children_sources = (f'{SL}:List.sym_values',)
+
+  def havoc_locals(self):
+    return {'elem': lambda b, n: SAny(n)}
+
+  def _build(self):
+    root = pg.List([pg.Dict(x=1), 2])
+    return root, root[0]
+
+
+@register
+class ObjectDeepSeal(Contract):
+  """Object.sym_seal: the attribute dict (which holds all symbolic children)
+  is sealed with the requested flag and the object's own flag is set, on every
+  returning path."""
+  prop = 'C08'
+  target = f'{SO}:Object.sym_seal'
+  raises = {}
+  inline = _DeepSeal.inline
+
+  def inputs(self, b):
+    self._attrs = _absobj.ref(SealChild, b.int('attrs').z)
+    s = SObj(pg.Object, {'_sealed': b.bool('was_sealed'), '_sym_attributes': self._attrs}, name='self')
+    return dict(self=s, is_seal=b.bool('is_seal')), {}
+
+  def setup_policy(self, policy):
+    def getattr_h(interp, obj, name, frame):
+      if isinstance(obj, SObj) and obj.cls is SealChild and name in ('seal', 'sym_seal'):
+        def seal(ip, a, k, o=obj):
+          ip.path.event('child-seal', name, (o, ip.resolve(a[0]) if a else True))
+          return o
+        return I.NativeFn(seal)
+      return NotImplemented
+    policy.handlers[('getattr', SObj)] = getattr_h
+
+    def raw_set(interp, args, kwargs, frame):
+      obj, name, v = interp.resolve(args[0]), args[1], args[2]
+      interp.path.event('raw-set', name, (obj, v))
+      obj.fields[name] = v
+      return None
+    policy.handlers[('cmethod', object, '__setattr__')] = raw_set
+    policy.handlers[('identical',)] = _absobj.identical_handler
+
+  def trace_attribute_dict_sealed_and_own_flag_set(self, events, outcome, interp, env):
+    if outcome[0] != 'return':
+      return False
+    s = interp.resolve(env['self'])
+    sealed = [e for e in events if e.kind == 'child-seal' and e.data[0] is self._attrs]
+    sets = [e for e in events if e.kind == 'raw-set' and e.what == '_sealed' and e.data[0] is s]
+    if len(sealed) != 1 or len(sets) != 1:
+      return False
+    a = interp.truth_z(interp.identical(sealed[0].data[1], env['is_seal']))
+    b_ = interp.truth_z(interp.identical(sets[0].data[1], env['is_seal']))
+    a = z3.BoolVal(a) if isinstance(a, bool) else a
+    b_ = z3.BoolVal(b_) if isinstance(b_, bool) else b_
+    return z3.And(a, b_)
+
+  def ensures_returns_self(self, self_, result):
+    return result is self_
+
+  def replay(self, obligation, m):
+    class _A(pg.Object):
+      x: pg.typing.Any() = None
+    bad = []
+    for first in (True, False):
+      for second in (True, False):
+        o = _A(x=pg.Dict(y=1))
+        base.Symbolic.sym_seal(o, first)          # the object's own flag alone
+        o.x.sym_seal(not second)
+        o.seal(second)
+        if o.x.is_sealed != second or o.is_sealed != second or o.sym_init_args.is_sealed != second:
+          bad.append(f'own flag {first}, child {not second}, then seal({second}): object {o.is_sealed}, '
+                     f'attribute dict {o.sym_init_args.is_sealed}, child {o.x.is_sealed}')
+    return dict(outcome='reproduced' if bad else 'not-reproduced', detail='; '.join(bad[:3]) or 'descendants follow')
+
+  def small_models(self):
+    from pyvc.contracts import Model
+    yield Model({}, {})
